@@ -336,4 +336,35 @@ example : InnerS 100 8 none ∧ 8 ≤ RSIZE_MAX_STR ∧ RW osExSt 100 8 ∧
    strerrorlen_s_libc_eq 5 400 11 osExSt (by decide) (osExSt_str _ _ (by omega)) (by decide), Or.inl rfl,
    by decide, osExSt_str _ _ (by omega), Or.inl (by decide), by decide, osExSt_str _ _ (by omega), Or.inl (by decide), osExSt_dots⟩
 
+/-- the class excluded by `dmax ≤ RSIZE_MAX_STR` in `strerror_s_C05_partial`, in general: object size KNOWN,
+`RSIZE_MAX_STR < dmax ≤ destbos`, the message does not fit (`strerrorlen_s` answers `len ≥ dmax`): the entry check compares `dmax`
+with the object only, the truncating path calls `strncpy_s(dest, dmax, …)` and `strcat_s(dest, dmax, "...")` WITHOUT the object
+size, both reject `dmax` — strerror_s returns EOK after TWO reports of ESLEMAX and leaves dest exactly as it was.  Needs a
+message of more than 4096 characters (no libc has one): a statement about the model's quantifier, not a reachable defect. -/
+theorem strerror_s_C05_bos_witness (cfg : Cfg) (dest dmax errnum b msg dots len : Nat) (st : St)
+    (hd : dest ≠ 0) (hgt : RSIZE_MAX_STR < dmax) (hb : dmax ≤ b)
+    (hlen : exec (strerrorlen_s errnum msg) st = .ok (len, st)) (hge : dmax ≤ len) :
+    exec (strerror_s cfg dest dmax errnum (some b) msg dots) st =
+      .ok (EOK, { st with events := st.events ++ [.handler .str ESLEMAX, .handler .str ESLEMAX] }) := by
+  have hz : dmax ≠ 0 := by omega
+  have h4 : (4 : Nat) ≤ RSIZE_MAX_STR := by decide
+  unfold strerror_s chkDmax
+  rw [if_neg hd, if_neg hz]
+  simp only []
+  rw [if_neg (by omega)]
+  simp only [exec_bind, hlen]
+  rw [if_neg (by omega), if_pos (by omega)]
+  simp only [strncpy_s, strncpyG, strcat_s, strcatG, chkDmaxClear, chkDmaxClearG]
+  rw [if_neg (by omega), if_neg hd, if_neg hz, if_pos hgt]
+  simp [exec_bind, handlerS, hd, hz, hgt]
+
+/-- non-vacuity: a message of 5000 `d`s at 10000 (errnum 5 is not one of the library's own codes), `dmax = destbos = 4097` -/
+example : ∃ st : St, exec (strerrorlen_s 5 10000) st = .ok (5000, st) ∧ RSIZE_MAX_STR < 4097 ∧ 4097 ≤ 5000 := by
+  refine ⟨{ data := fun a => if 10000 ≤ a ∧ a < 15000 then 100 else 0, mapped := fun _ => true, rd := fun _ => true,
+            wr := fun _ => false }, ?_, by decide, by decide⟩
+  refine strerrorlen_s_libc_eq 5 10000 5000 _ (by decide) ⟨fun j hj => ?_, ?_, fun _ _ => ⟨rfl, rfl⟩⟩ (by decide)
+  · have : 10000 ≤ 10000 + j ∧ 10000 + j < 15000 := by omega
+    simp [this]
+  · simp
+
 end SafeC.Props.C05Os
